@@ -24,6 +24,7 @@ indices) is decided per run by the harness oracle over every pointer of every ge
 -/
 import SpecModel.Codec.SideConditions
 import SpecModel.Codec.Lookup
+import SpecModel.Props.C06
 
 namespace SpecModel.Props.C15
 open SpecModel SpecModel.Codec
@@ -98,6 +99,36 @@ theorem paths_find_their_members {ms : List (String × Json)} {tok : String} {v 
     decide
   obtain ⟨ki, h1, h2⟩ := hk
   exact member_found_paths h1 h2 hl hem
+
+/-- **on actual encodings, regular kinds** (operation, parameter, header, items, path item, swagger, info, tag):
+every member of what decode+encode returns, other than `$ref`, is found by the lookup with its value -/
+theorem lookup_agrees_on_regular_encodings {k : String} {ki : KindInfo} (hk : lookupKind Gen.kinds k = some ki)
+    (hc : concatLookupKind ki = true) {j₀ : Json} {ms : List (String × Json)} (h : norm k j₀ = .ok (.obj ms))
+    {tok : String} {v : Json} (hm : (tok, v) ∈ ms) (hne : tok ≠ "$ref") : lookupTok k ms tok = some v := by
+  have hmem : ki ∈ Gen.kinds := List.mem_of_find?_eq_some hk
+  have hc0 := hc
+  simp only [concatLookupKind, Bool.and_eq_true, Bool.not_eq_true', bne_iff_ne, ne_eq] at hc
+  have hreg : (["schema", "responses", "paths"].contains ki.kind) = false := by
+    have := hc.1.1
+    simp only [List.contains_cons, List.contains_nil, Bool.or_false, Bool.or_eq_false_iff] at this ⊢
+    exact ⟨this.1, this.2.2.1, this.2.2.2.1⟩
+  have hcustom : ki.lookupChain.isEmpty = false := hc.2
+  have := List.all_eq_true.mp chains_cover_parts ki (List.mem_filter.mpr ⟨hmem, by rw [hcustom, hreg]; rfl⟩)
+  simp only [Bool.and_eq_true] at this
+  exact norm_lookup_concat C06.tables_ok hk hc0 this.1 this.2 keywords_not_numerals h hm hne
+
+/-- the kinds this covers -/
+example : (Gen.kinds.filter concatLookupKind).map (·.kind) =
+    ["swagger", "info", "tag", "parameter", "items", "header", "operation", "pathItem"] := by decide
+
+/-- **on actual encodings, schema** -/
+theorem lookup_agrees_on_schema_encodings {j₀ : Json} {ms : List (String × Json)} (h : norm "schema" j₀ = .ok (.obj ms))
+    {tok : String} {v : Json} (hm : (tok, v) ∈ ms) (hne : tok ≠ "$ref") (hns : tok ≠ "$schema")
+    (hcanon : ∀ n, atoi tok = some n → itoa n = tok) : lookupTok "schema" ms tok = some v := by
+  have hk : ∃ ki, lookupKind Gen.kinds "schema" = some ki ∧
+      ["Extensions", "ExtraProps", "SchemaProps", "SwaggerSchemaProps"].all ki.lookupChain.contains = true := by decide
+  obtain ⟨ki, h1, h2⟩ := hk
+  exact norm_lookup_schema C06.tables_ok h1 h2 keywords_not_numerals h hm hne hns hcanon
 
 /-- non-vacuity: the model on a small operation, a schema with an unknown keyword, and a responses object -/
 example : lookupTok "operation" [("operationId", .str "op"), ("x-a", .num 1)] "operationId" = some (.str "op") := by rfl
